@@ -13,6 +13,16 @@ PROPERTY = "C07"
 LEVEL = "model_checking"
 
 INIT_BOUNDS = {"r1": (-5, 10), "r2": (0, 7), "r3": (-3, 4)}
+# bounds profiles (the property does not restrict the bounds a knocked-out reaction had) and the history by which
+# the model reached its initial state (fresh, or via operations that rebuild the gene <-> reaction links)
+PROFILES = {"A": dict(INIT_BOUNDS), "B": {"r1": (-10, -2), "r2": (2, 7), "r3": (3, 3)}}
+ORIGINS = ("fresh", "restored", "readded", "copy", "pickle")
+
+
+def variants(tier):
+    if tier == "quick":
+        return [("A", "fresh"), ("A", "restored"), ("B", "fresh"), ("B", "copy")]
+    return [(p, o) for p in PROFILES for o in ORIGINS]
 
 
 def trees(n, genes):
@@ -49,7 +59,27 @@ def rule_family(tier):
     return out
 
 
-def build(tree):
+def build(tree, origin="fresh"):
+    m = _build(tree)
+    if origin == "restored":
+        # every reaction removed inside a context that is rolled back
+        with m:
+            m.remove_reactions(list(m.reactions))
+        assert len(m.reactions) == 3
+    elif origin == "readded":
+        rs = list(m.reactions)
+        m.remove_reactions(rs)
+        m.add_reactions(rs)
+    elif origin == "copy":
+        m = m.copy()
+    elif origin == "pickle":
+        import pickle
+
+        m = pickle.loads(pickle.dumps(m))
+    return m
+
+
+def _build(tree):
     from cobra import Metabolite, Model, Reaction
 
     m = Model("ko")
@@ -171,22 +201,28 @@ def shape_of(tree):
     return "%s(%s)" % (tree[0], ",".join(shape_of(t) for t in tree[1:]))
 
 
-def explore_rule(tree, stats):
+def explore_rule(tree, stats, profile="A", origin="fresh"):
     viol = []
     rules = {"r1": tree, "r2": ("or", "g2", "g3"), "r3": None}
     RULES["current"] = rules
+    INIT_BOUNDS.clear()
+    INIT_BOUNDS.update(PROFILES[profile])
     with warnings.catch_warnings():
         warnings.simplefilter("ignore")
-        m = build(tree)
+        m = build(tree, origin)
     gene_ids = sorted(g.id for g in m.genes)
     ops = ops_menu(gene_ids)
     gene_rxns = {g: {rid for rid, t in rules.items() if g in ref_gpr.genes(t)} for g in gene_ids}
     text = ref_gpr.render(tree)
 
     def bad(check, op, state, detail, ctx=False):
-        viol.append(({"check": check, "op": op[0] + ((":" + op[2]) if len(op) > 2 else ""), "rule_shape": shape_of(tree),
-                      "context": ctx},
-                     {"rule": text, "state": [sorted(state[0]), sorted(state[1])], "op": _l(op), "context": ctx},
+        sig = {"check": check, "op": op[0] + ((":" + op[2]) if len(op) > 2 else ""), "rule_shape": shape_of(tree),
+               "context": ctx}
+        if (profile, origin) != ("A", "fresh"):
+            sig["variant"] = profile + "/" + origin
+        viol.append((sig,
+                     {"rule": text, "state": [sorted(state[0]), sorted(state[1])], "op": _l(op), "context": ctx,
+                      "profile": profile, "origin": origin},
                      f"rule r1: {text!r}; state knocked={sorted(state[0])} direct={sorted(state[1])}; op={op}\n{detail}"))
 
     init = (frozenset(), frozenset())
@@ -254,7 +290,7 @@ def explore_rule(tree, stats):
                 bad("raised " + type(exc).__name__, op1, init, repr(exc), ctx=True)
                 with warnings.catch_warnings():
                     warnings.simplefilter("ignore")
-                    m = build(tree)
+                    m = build(tree, origin)
     return viol
 
 
@@ -266,8 +302,9 @@ def run_task(payload):
     stats, violations = {}, []
     for tree in payload["trees"]:
         tree = _t(tree)
-        stats["rules"] = stats.get("rules", 0) + 1
-        violations.extend(explore_rule(tree, stats))
+        for profile, origin in payload.get("variants", [("A", "fresh")]):
+            stats["rules"] = stats.get("rules", 0) + 1
+            violations.extend(explore_rule(tree, stats, profile, origin))
     return {"violations": violations[:400], "stats": stats}
 
 
@@ -277,7 +314,7 @@ def _t(x):
 
 def replay(case):
     tree = ref_gpr.parse(case["rule"])
-    viol = explore_rule(tree, {})
+    viol = explore_rule(tree, {}, case.get("profile", "A"), case.get("origin", "fresh"))
     op = case["op"]
     return [{"sig": s, "detail": d} for s, c, d in viol
             if c["op"] == op and c["state"] == case["state"] and c["context"] == case["context"]]
@@ -288,7 +325,8 @@ def explore(ctx):
     off = ctx.seed % len(fam)
     fam = fam[off:] + fam[:off]
     chunk = 6
-    payloads = [{"trees": fam[i:i + chunk]} for i in range(0, len(fam), chunk)]
+    var = variants(ctx.tier)
+    payloads = [{"trees": fam[i:i + chunk], "variants": var} for i in range(0, len(fam), chunk)]
     stats = {}
     with ctx.pool(timeout=3000) as pool:
         for i, status, r0 in pool.imap(payloads):
@@ -310,6 +348,9 @@ def explore(ctx):
                 "oracle = independent truth-table evaluator; non-trivial = rule is not a single gene"
                 % (len(fam), 3 if ctx.tier == "quick" else 4),
         "exhaustive": True, "closed_fixpoint": True, "rules": len(fam),
+        "variants": ["%s/%s" % v for v in var],
+        "variant_rule": "bounds profile A %r / B %r x origin of the model (fresh; restored = all reactions removed inside a "
+                        "rolled-back context; readded; copy; pickle)" % (PROFILES["A"], PROFILES["B"]),
     })
     ctx.sample({"rule": ref_gpr.render(fam[len(fam) // 2]), "ops": "all"})
     ctx.assumptions += ["states are re-established with the public setters gene.functional / reaction.bounds"]
